@@ -1,5 +1,7 @@
 import HC.Proofs.Layout
 import HC.Proofs.Bitfield
+import HC.Proofs.OplogBytes
+import HC.Proofs.BitfieldPages
 /-!
 # C06 — storage files are readable and writable per the JavaScript on-disk layout
 
@@ -16,7 +18,16 @@ current header bit); `HC.Oplog.openLog` is the reader (`Oplog::open`).
   entry list (any flag combination), every tail;
 * `header_round_trip`, `entry_round_trip`: the payload encodings.
 
-The single-slot cases, the bitfield/tree/data stores and the hashes of the five-step interoperability
+* `read_any_slots`   : the same for **any** combination of valid and invalid header slots (either slot may
+  fail `validate_leader`; a slot is "a header frame followed by anything"), any frames after them with any
+  header bits and partial flags, and a tail that is no frame: the result is exactly the JavaScript reader's
+  rule `Rotation.Log.open` (newest header = slot 1 iff the bits differ, single-slot bit rules, entries
+  while they carry the current bit, trailing partial ones dropped), and whatever follows the entries read
+  is cut off;
+* `bitfield_pages`   : the bitfield store is read as 4096-byte little-endian pages: bit `i` is bit `i % 8` of
+  byte `i / 8`, for every index.
+
+The tree/data stores and the hashes of the five-step interoperability
 scenario are covered by the run: every dump of every history is read back by this reader in Lean and
 compared with what the crate's API reports; the scenario's SHA-256 hashes (computed by the harness on
 the real files and by Lean on the model's files) are compared with the constants certified against
@@ -60,5 +71,25 @@ theorem read_write (h0 h1 : Header) (b0 b1 : Bool) (es : List (Entry × Bool)) (
 theorem bitfield_exact (b : Bitfield) (start len : Nat) (v : Bool) (i : Nat) :
     (b.setRange start len v).get i = if start ≤ i ∧ i < start + len then v else b.get i :=
   Bitfield.get_setRange b start len v i
+
+/-- `Oplog::open` on any two slots (valid or not), any frames, any tail that is no frame: the reader's rule -/
+theorem read_any_slots (s0 s1 : Bytes) (c0 c1 : Option (Bool × Header)) (fs : List (Rotation.Frame Entry))
+    (l0 : s0.length = Spec.headerSize) (l1 : s1.length = Spec.headerSize)
+    (h0 : OplogBytes.SlotIs s0 c0) (h1 : OplogBytes.SlotIs s1 c1) (hok : ∀ f ∈ fs, OplogBytes.EntryOK f.entry)
+    (bits : Rotation.Bits) (h : Header) (es : List Entry)
+    (hopen : (⟨c0, c1, fs⟩ : Rotation.Log Header Entry).open = some (bits, h, es))
+    (tail : Bytes) (htail : validateLeader tail = none) :
+    ∃ ost, openLog none (s0 ++ s1 ++ (OplogBytes.framesBytes fs ++ tail)) = .ok ⟨ost, h, OplogBytes.truncOpsT bits.cur fs tail.length, es⟩
+      ∧ ost.bits = (bits.b0, bits.b1) ∧ ost.entriesByteLength = (OplogBytes.framesBytes (Rotation.takeBit bits.cur fs)).length :=
+  OplogBytes.openLog_abs_tail s0 s1 c0 c1 fs l0 l1 h0 h1 hok bits h es hopen tail htail
+
+/-- non-vacuity: a file whose first slot is invalid and whose second slot holds a header is within `read_any_slots` -/
+example (hdr : Header) : (⟨none, some (true, hdr), []⟩ : Rotation.Log Header Entry).open = some (⟨false, true⟩, hdr, []) := by
+  simp [Rotation.Log.open, Rotation.seen, Rotation.takeBit, Rotation.dropTrailingPartial]
+
+/-- the bitfield store as little-endian pages -/
+theorem bitfield_pages (f : File) (i : Nat) :
+    (Bitfield.ofFile f).get i = (decide (i < (f.size - f.size % 4) * 8) && decide ((f.byte (i / 8)).toNat / 2 ^ (i % 8) % 2 = 1)) :=
+  BitfieldPages.ofFile_get f i
 
 end HC.C06
